@@ -1,6 +1,7 @@
 import FinamModel.DriverUtil
 import FinamModel.Validate
 import FinamModel.Units
+import FinamModel.Info
 /-! Line-protocol handlers for C19 (validation), C17 (units), C07 (metadata exchange). -/
 namespace Finam.Driver
 open Lean
@@ -83,10 +84,91 @@ def table (_ : Json) : Json :=
   Json.mkObj [("table", jList (fun e => Json.arr #[Json.str e.1, jList jInt e.2.dim.toList, jRat e.2.factor, jRat e.2.offset]) catalogue)]
 end C17
 
+namespace C07
+open Finam.Info
+
+def pairIn (l : List (Nat × Nat)) (a b : Nat) : Bool := l.contains (a, b)
+
+def parsePairs (j : Json) (k : String) : List (Nat × Nat) :=
+  (getArr j k).filterMap fun e => match arr e with | [a, b] => some (asNat a, asNat b) | _ => none
+
+def optNat (j : Json) : Option Nat := if j.isNull then none else some (asNat j)
+
+def parseRel (j : Json) : Rel :=
+  let gc := parsePairs j "gridCompat"
+  let ge := parsePairs j "gridEq"
+  let tr := parsePairs j "transformOk"
+  let uc := parsePairs j "unitsCompat"
+  let ts := parsePairs j "timesSecond"
+  let me : List (Nat × Nat × Option Nat × Option Nat) :=
+    (getArr j "maskEq").filterMap fun e => match arr e with
+      | [a, b, c, d] => some (asNat a, asNat b, optNat c, optNat d) | _ => none
+  { gridCompat := pairIn gc, gridEq := pairIn ge, transformOk := pairIn tr, unitsCompat := pairIn uc,
+    maskEq := fun a b c d => me.contains (a, b, c, d),
+    maskFits := pairIn (parsePairs j "maskFits"),
+    noGrid := getNat j "noGrid",
+    timesSecond := fun u => (ts.lookup u).getD 0 }
+
+def parseMask (j : Json) : Option MaskSpec :=
+  if j.isNull then none
+  else match j.getStr? with
+    | .ok "flex" => some .flex
+    | .ok "none" => some .none
+    | _ => some (.explicit (asNat j))
+
+def parseInfo (j : Json) : Info :=
+  { time := (getObj j "time").getInt?.toOption,
+    grid := optNat (getObj j "grid"),
+    units := optNat (getObj j "units"),
+    mask := parseMask (getObj j "mask"),
+    extra := (getArr j "meta").filterMap fun e => match arr e with
+      | [k, v] => some (asStr k, optNat v) | _ => none }
+
+def parseKind (j : Json) : AKind :=
+  match asStr j with
+  | "g2v" => .gridToValue
+  | "sum" => .sumOverTime
+  | "regrid" => .regrid
+  | _ => .identity
+
+def parseBranch (j : Json) : Branch :=
+  ⟨(getArr j "chain").map fun k => { kind := parseKind k },
+   (getArr j "inputs").map fun i => { info := parseInfo i }⟩
+
+def jOptNat : Option Nat → Json | some n => jNat n | none => Json.null
+def jMask : Option MaskSpec → Json
+  | none => Json.null
+  | some .flex => Json.str "flex"
+  | some .none => Json.str "none"
+  | some (.explicit m) => jNat m
+
+def jInfo (i : Info) : Json :=
+  Json.mkObj [("time", jOptInt i.time), ("grid", jOptNat i.grid), ("units", jOptNat i.units), ("mask", jMask i.mask),
+    ("meta", jList (fun e => Json.arr #[Json.str e.1, jOptNat e.2]) i.extra)]
+def jOptInfo : Option Info → Json | some i => jInfo i | none => Json.null
+
+/-- C07: the exchanges of all consumers of one output, in the given order -/
+def handle (j : Json) : Json :=
+  let R := parseRel (getObj j "rel")
+  let o : OutState := ⟨some (parseInfo (getObj j "out")), 0, getBool j "static"⟩
+  let bs := (getArr j "branches").map parseBranch
+  let order := parsePairs j "order"
+  match exchangeAll R order bs o with
+  | .error e => jErr e
+  | .ok (bs', o') =>
+    Json.mkObj [("ok", Json.mkObj [
+      ("out", jOptInfo o'.info), ("exchanged", jNat o'.exchanged),
+      ("branches", jList (fun (b : Branch) => Json.mkObj [
+        ("chain", jList (fun (a : AState) => Json.mkObj [("in", jOptInfo a.inInfo), ("out", jOptInfo a.outInfo)]) b.chain),
+        ("inputs", jList (fun (i : InState) => Json.mkObj [("info", jInfo i.info), ("delivered", jOptInfo i.delivered),
+            ("exchanged", Json.bool i.exchanged)]) b.inputs)]) bs')])]
+end C07
+
 def handlersMeta : List (String × (Json → Json)) := [
   ("c19", C19.handle),
   ("c17", C17.handle),
-  ("c17table", C17.table)
+  ("c17table", C17.table),
+  ("c07", C07.handle)
 ]
 
 end Finam.Driver
